@@ -18,15 +18,15 @@ SCENARIOS = {
     "sem1": ("sem", 1, [["swait", "ssignal"], ["swait", "ssignal"], ["stwait", "ssignal"]]),
     "sem2": ("sem", 0, [["swait"], ["strywait", "ssignal"], ["stwait", "ssignal"]]),
 }
-OPMAP = {"twait": "twait30", "mtwait": "mtwait20", "swait": "wait", "stwait": "twait40", "strywait": "trywait", "ssignal": "signal"}
+OPMAP = {"msetafter1": "msetafter1", "msetafter2": "msetafter2", "msetafter3": "msetafter3", "twait": "twait30", "mtwait": "mtwait20", "swait": "wait", "stwait": "twait40", "strywait": "trywait", "ssignal": "signal"}
 
 
 def build():
     return vlib.build("scn_prims", ["sched/sched.cpp", "conc/scn_prims.cpp"], SRCS, libs=["-ldl"])
 
 
-def scenario_args(prim, init, progs):
-    a = ["prim=" + prim, "n=%d" % len(progs), "init=%d" % init]
+def scenario_args(prim, init, progs, gmtx=0):
+    a = ["prim=" + prim, "n=%d" % len(progs), "init=%d" % init] + (["gmtx=1"] if gmtx and prim == "mutex" else [])
     for i, p in enumerate(progs):
         a.append("p%d=%s" % (i + 1, ",".join(OPMAP.get(o, o) for o in p)))
     return a
@@ -158,7 +158,7 @@ def run(ctx):
     runs = []
     for i in range(nrand):
         prim, init, progs = rand_programs(ctx.rng)
-        runs.append(scenario_args(prim, init, progs) + ["--seed", str(ctx.seed * 100003 + i), "--spur", ctx.rng.choice(["0", "0", "0.05", "0.3"]),
+        runs.append(scenario_args(prim, init, progs, gmtx=i % 2) + ["--seed", str(ctx.seed * 100003 + i), "--spur", ctx.rng.choice(["0", "0", "0.05", "0.3"]),
                      "--tout", ctx.rng.choice(["0", "0", "0.1", "0.3"])])      # time-outs may fire although other threads could still run
     check_runs(ctx, binary, runs, "random")
     # histories of ONE thread across several calls: a timed wait that really times out, then waits of the same thread that
@@ -169,7 +169,17 @@ def run(ctx):
                 ("signal", 0, [["twait", "twait", "wait"], ["twait", "wait"], ["set"]]),
                 ("signal", 0, [["twait", "twait"], ["reset", "set"], ["twait", "wait"]]),
                 ("monitor", 0, [["mlock", "mtwait", "mtwait", "mtwait", "munlock"], ["mset", "mset"]]),
-                ("monitor", 0, [["mlock", "mtwait", "munlock", "mlock", "mtwait", "munlock"], ["mlock", "mtwait", "munlock"], ["mset", "mset"]])]
+                ("monitor", 0, [["mlock", "mtwait", "munlock", "mlock", "mtwait", "munlock"], ["mlock", "mtwait", "munlock"], ["mset", "mset"]]),
+                # two untimed waiters and a setter that keeps setting until both are through (the scheduler's fairness
+                # quantum lets the loop and the waiters alternate under the non-preemptive exploration)
+                ("monitor", 0, [["mlock", "mwait", "munlock", "mdone"], ["mlock", "mwait", "munlock", "mdone"], ["msetloop"]]),
+                ("monitor", 0, [["mlock", "mwait", "munlock", "mdone"], ["mlock", "mwait", "munlock", "mdone"], ["mlock", "mwait", "munlock", "mdone"], ["msetloop"]]),
+                # exactly as many sets as waiters; set k is issued only after k waiters have taken the monitor and the sets before it
+                # have each released one (sets do not accumulate, so they must not coalesce): each set has to release a waiter
+                # (a set lost to a later waiter's arrival leaves the setter waiting for a release that never comes)
+                ("monitor", 0, [["mlock", "mwaite", "munlock"], ["mlock", "mwaite", "munlock"], ["msetafter1", "msetafter2"]]),
+                ("monitor", 0, [["mlock", "mwaite", "munlock"], ["mlock", "mwaite", "munlock"], ["mlock", "mwaite", "munlock"], ["msetafter1", "msetafter2", "msetafter3"]]),
+                ("monitor", 0, [["mlock", "mwaite", "munlock"], ["mlock", "mwaite", "munlock"], ["msetafter1"], ["msetafter2"]])]
     runs = []
     for j, (prim, init, progs) in enumerate(DIRECTED):
         for i in range(12 if ctx.quick else 150):
@@ -179,8 +189,6 @@ def run(ctx):
     # systematically: every schedule with at most 2 (thorough: 3) preemptions of the scenario and directed programs
     runs = []
     for prim, init, progs in [SCENARIOS[n] for n in names] + DIRECTED:
-        if any(op == "msetloop" for p in progs for op in p):
-            continue                                   # an unbounded loop: left to the random and graph schedules
         base = scenario_args(prim, init, progs) + ["--seed", "1", "--spur", "0"]
         runs += vlib.preemption_bounded_schedules(binary, base, bound=2 if ctx.quick else 3, cap=250 if ctx.quick else 4000)
     ctx.notes["preemption_bounded_schedules"] = len(runs)
